@@ -4,6 +4,7 @@ import ObiVerif.Model.DeBruijn
 import ObiVerif.Model.DeBruijnCov
 import ObiVerif.Model.KmerIndex
 import ObiVerif.Model.DeBruijnHist
+import ObiVerif.Model.Consensus
 import ObiVerif.Driver.Util
 /-! line protocol for C19 (see `harness/c19.go` for the case and result formats) -/
 namespace ObiVerif.Driver.C19
@@ -362,11 +363,26 @@ def runKmc (r rep : String) (rest : List String) : String :=
     if self ≠ "0" then "bad-op" else runKs "match" form k sp mn mo self ncpu batch obs nref seqs
   | _, _, _ => "bad-op"
 
+/-- `cons <kopt> <read:count>…`: `obiconsensus.BuildConsensus(seqs, id, kopt, 0, false, "")` (harness/c19_cons.go) -/
+def runCons (kopt : String) (reads : List String) : String :=
+  match kopt.toInt?, reads.mapM parseRead with
+  | some ko, some reads =>
+    if ko < -1 ∨ ko = 0 ∨ ko > 64 ∨ toString ko ≠ kopt ∨ reads.length > 400 then "bad-op" else
+      match buildConsensus hpFuel reads ko with
+      | .noSeq => "noseq"
+      | .single s w => s!"single {hex s} {w}"
+      | .panic => "panic"
+      | .fuel => "fuel"
+      | .err _ => "err"
+      | .cons s k w mo sz => s!"k={k} cons={hex s} w={w} mo={mo} fg={sz}"
+  | _, _ => "bad-op"
+
 /-- `race conc …`: the same case replayed by the harness through a `go build -race` build; same answer -/
 def run (line : String) : String :=
   match words line with
   | "race" :: "conc" :: rest => runLine ("conc" :: rest)
   | "kmc" :: r :: rep :: rest => runKmc r rep rest
+  | "cons" :: kopt :: reads => runCons kopt reads
   | ws => runLine ws
 
 end ObiVerif.Driver.C19
